@@ -1,7 +1,7 @@
 """Process-global volatile state of the library = what a process restart resets.
 
 At harness import (before any run) we snapshot
-  * every module-level dict / list / set / ndarray of every `grid.*` module, and
+  * every module-level and class-level dict / list / set / ndarray of every `grid.*` module, and
   * every mutable default argument (list / dict / set / ndarray) of every function and method defined there,
 and `restore()` puts their *contents* back in place.  Every simulated run starts with a restore (= a
 fresh process), and the `restart` fault does the same in the middle of a run.  This keeps runs
@@ -76,6 +76,15 @@ def snapshot():
             elif val is None or isinstance(val, (int, float, str, bool, tuple)):
                 if name.isupper() or name.startswith("_"):
                     scalars.append((mod, name, val))
+        for _, cls in list(vars(mod).items()):
+            if inspect.isclass(cls) and cls.__module__ == mod.__name__:
+                for an, av in list(vars(cls).items()):
+                    if an.startswith("__"):
+                        continue
+                    if isinstance(av, _MUTABLE):
+                        glob.append((av, copy.deepcopy(av)))
+                    elif isinstance(av, np.ndarray):
+                        glob.append((av, av.copy()))
         for f in _functions(mod):
             for d in (f.__defaults__ or ()):
                 if isinstance(d, _MUTABLE):
